@@ -13,10 +13,20 @@ sys.path.insert(0, "lib")
 import vcheck
 from props import PROPS
 for pid, cfg in PROPS.items():
-    log = []
-    d = vcheck.build_driver(pid, cfg, log)
-    if not d:
-        print("\n".join(log)); sys.exit(1)
+    todo = []
+    if cfg.get("components"):
+        # cross-cutting checks: build the drivers of their own (inline) components; the others belong to their properties
+        for comp in cfg["components"]:
+            c = comp.get("cfg")
+            if c and not c.get("driver_cmd"):
+                todo.append((comp.get("name"), c))
+    else:
+        todo.append((pid, cfg))
+    for name, c in todo:
+        log = []
+        d = vcheck.build_driver(name, c, log)
+        if not d:
+            print("\n".join(log)); sys.exit(1)
 PY
 [ -f harness/Cargo.lock ] || cp /repo/Cargo.lock harness/Cargo.lock
 ( cd harness && cargo build --offline --bins && cargo build --offline --bins --release )
